@@ -264,6 +264,19 @@ def _change_guards(ctx, rep, rule: str) -> None:
                 un = mcfg.node_of(u)
                 if un is not None and tn is not None and un is not tn and tn in mcfg.reachable(un) and not any(x is u for st in iff.body for x in ast.walk(st)):
                     stale.append((iff, u))
+        # the *current* selector compared must be this step's: a call that refreshes self._global_grad_selector dominates each guard
+        pts = ctx.engine("pts")
+        def refreshes(q: str, depth: int = 0) -> bool:
+            g = repo.funcs.get(q)
+            if g is None or g.name == "__init__":
+                return False
+            if any(isinstance(x, (ast.Assign, ast.AnnAssign, ast.AugAssign)) and any(ast.unparse(t) == cur for t in (x.targets if isinstance(x, ast.Assign) else [x.target])) for x in ast.walk(g.node)):
+                return True
+            return depth < 2 and any(refreshes(q2, depth + 1) for c2 in A.calls(g.node) for q2 in pts.callees(g.qual, c2) if q2 != q)
+        wcalls = [c2 for c2 in A.calls(meth.node) if any(refreshes(q) for q in pts.callees(meth.qual, c2))]
+        wnodes = [mcfg.node_of(c2) for c2 in wcalls]
+        late = [iff for iff in ifs if not any(wn is not None and mcfg.node_of(iff.test) is not None and wn is not mcfg.node_of(iff.test) and mcfg.dominates(wn, mcfg.node_of(iff.test)) for wn in wnodes)]
+        rep.ob(rule, f"change-guard-sees-this-step's-selector:{c.name}.merge_and_block_gradients", bool(wcalls) and not late, meth.loc(late[0]) if late else meth.loc(), f"{len(wcalls)} call(s) in merge_and_block_gradients refresh `{cur}` from this step's gradients; each re-mask guard must be dominated by one (a guard evaluated before the refresh compares last step's selector, so the masked lists lag one step behind the gradients)" + (f": guard at line {late[0].lineno} is not" if late else ""), sample=True)
         upd = [n for iff in ifs for n in iff.body if isinstance(n, ast.Assign) and ast.unparse(n.targets[0]) == prev and ast.unparse(n.value) == cur]
         used = {ast.unparse(n) for iff in ifs for st in iff.body for n in ast.walk(st) if isinstance(n, ast.Attribute) and n.attr.endswith("_selector") and isinstance(n.value, ast.Name) and n.value.id == "self"}
         rep.ob(
